@@ -136,6 +136,7 @@ def run_case(stream, seed, ctx, params):
                                       lat_tr_p=0.2)
     else:
         d = coincident_deck(rng)
+    G.vary_mats(d, rng)
     flags = rng.choice(all_option_sets())
     args = list(flags)
     if rng.random() < 0.5:
